@@ -62,6 +62,12 @@ RepSites(c) == {<<Gs(c)[k].rpos, Gs(c)[k].rtype, Gs(c)[k].model6>> : k \in Repor
 CensusApplies == R.census = 1
 C01_Census     == CensusApplies => LET dc == DeclCensus IN \A c \in AllConfs : RepSites(c) = dc
 C01_ExactlyOnce == CensusApplies => \A c \in AllConfs : Cardinality(Reported(c)) = Cardinality(RepSites(c))
+(* no chimera: a conformation holds one residue type per position (chain, number, insertion code) whenever the input
+   does (R.onetype: per model, a position carries one residue name among the records shared by all conformations, and
+   per alternate-location label).  R.resat[c] = distinct <<chain, number, code, residue name>> of the atoms of c. *)
+C01_OneResiduePerPosition ==
+   R.onetype = 1 => \A c \in Confs : LET s == R.resat[c] IN
+      \A j, k \in 1..Len(s) : (s[j][1] = s[k][1] /\ s[j][2] = s[k][2] /\ s[j][3] = s[k][3]) => s[j][4] = s[k][4]
 (* bridged cysteines: non-titrating, 99.99 ; all other reported sites titrate *)
 Bridged(pos) == \E k \in 1..Len(R.bridged) : R.bridged[k] = pos
 C01_Bridge == CensusApplies => \A c \in Confs : \A k \in Reported(c) :
